@@ -15,12 +15,15 @@ MIN_OBLIGATIONS = 30
 RC = 'pyworkers.remote_context.RemoteContext'
 TRUSTED = _c11.TRUSTED
 ASSUMPTIONS = _c11.ASSUMPTIONS + [
-    'L3 (a worker created with a context id runs the context\'s target with its defaults) rests on C15.L1 for the root object (patches _target/_args/_kwargs reach the unpickled RemoteWorker); the hand-over of the client socket to the context helper is the obligation "ctx.call(cli)" of the accept loop; the helper process itself (RemoteContextWorker.do_work / _create_worker) is not under contract in this round',
-    'L4 (helper exit terminates its children) is not decided in this round',
+    'L3 (a worker created with a context id runs the context\'s target with its defaults) rests on C15.L1 for the root object (patches _target/_args/_kwargs reach the unpickled RemoteWorker); the hand-over of the client socket to the context helper is the obligation "ctx.call(cli)" of the accept loop; the helper itself is under contract (L3, L4, L4b)',
+    'L4: "terminated" means terminate(timeout=1, force=True) was invoked on the worker object the helper holds; that this leaves the backend process dead is C04 (server side) on top of T4',
 ]
 MUTANTS = _c11.MUTANTS + [
     ('pyworkers/remote_context.py', "            if not result:\n                raise ValueError(", "            if result is None:\n                raise ValueError(", 'client accepts a False reply to a create request'),
     ('pyworkers/remote_context.py', "            self._alive = not result\n", "            self._alive = False\n", 'client forgets a context the server could not delete'),
+    ('pyworkers/remote_context.py', "                '_target': self._target,\n", "", 'a worker sent to a context keeps its own target'),
+    ('pyworkers/remote_context.py', "        try:\n            ret = super().do_work()\n        finally:\n            self._target(None, _clean=True)", "        ret = super().do_work()\n        self._target(None, _clean=True)", 'clean-up skipped when serving ends by an exception'),
+    ('pyworkers/remote_context.py', "                except:\n                    logger.exception('Exception occurred while killing a remote child:')", "                except OSError:\n                    logger.exception('Exception occurred while killing a remote child:')", 'one failing terminate stops the clean-up of the remaining workers'),
 ]
 
 
@@ -100,8 +103,152 @@ def build(ex):
         RC + '._try_del', lid='L2b', name='C18.L2b RemoteContext._try_del: the context stays alive exactly when the server reports failure',
         params={'self': ('const', None)}, self_class=RC, setup=setup_del, returns='bool',
         ensures=[del_result], raises={'ConnectionClosedError': None}, raises_only=['ConnectionClosedError'], options=opts)
-    return lemmas + [(L2a, None), (L2b, None)]
+    # ------------------------------------------------------------------ L3 / L4 the helper process of a context
+    from pyvc.contracts import AbsClass
+
+    def child_class():
+        def terminate(ex_, a, k):
+            ac = ex_.abs_classes['CtxChild']
+            ac.set(ex_, a[0], 'terminated', z3.BoolVal(True))
+            if ex_.choose(2, 'child.terminate:outcome') == 1:
+                ex_.note('child.terminate raises')
+                raise common.PyRaise(VExc('AnyException', []))
+            return VBool(ex_.fresh('term_ret', smt.Bool))
+
+        def is_alive(ex_, a, k):
+            return VBool(ex_.fresh('child_alive', smt.Bool))
+        return AbsClass('CtxChild', fields={'terminated': smt.Bool}, methods={'terminate': terminate, 'is_alive': is_alive},
+                        attrs={'pid': lambda I, o: VSym(I.ex.fresh('child_pid', Val))}, text='a worker received by the context helper (seen through terminate/is_alive/pid)')
+    ex.abs_classes['CtxChild'] = child_class()
+
+    def helper_ctx(ex_, env):
+        I = ex_.interp
+        ch = ex_.alloc(HSymList(ex_.fresh('children', SeqVal)))
+        ex_.heap[ch.addr].elem_hint = ('abs', 'CtxChild')
+        attrs = {'_children': ch, '_target': I.sym('ctx_target'), '_args': I.sym('ctx_args'), '_kwargs': I.sym('ctx_kwargs'),
+                 '_extra_state': ex_.alloc(HDict({})), '_payload': I.sym('payload'), '_remote': VBool(True), '_id': I.sym('ctx_id')}
+        env['self'] = ex_.alloc(HObj(repo.cls(RC), attrs))
+        env['children'] = ch
+        env['k0'] = VInt(ex_.fresh('k0', smt.Int))
+        ex_.ext_models['os.kill'] = lambda ex2, a, k: NONE
+
+    def clean_setup(ex_, env):
+        helper_ctx(ex_, env)
+        env['cli'] = NONE
+        env['_check_payload'] = VBool(False)
+        env['_clean'] = VBool(True)
+
+    def all_terminated(c):
+        ex_ = c.ex
+        S = ex_.old['heap'][c.env['children'].addr].seq
+        k0 = c.env['k0'].e
+        ac = ex_.abs_classes['CtxChild']
+        return z3.Implies(z3.And(k0 >= 0, k0 < z3.Length(S)), z3.Select(ac.arr(ex_, 'terminated'), Val.vakey(S[k0])))
+    all_terminated.__doc__ = 'terminate(timeout=1, force=True) has been called on EVERY worker of the context (arbitrary position k0), also when an earlier one raised'
+
+    def visited_terminated(c):
+        ex_ = c.ex
+        S = c.env['__seq__'].e
+        k0 = c.env['k0'].e
+        ac = ex_.abs_classes['CtxChild']
+        return z3.Implies(z3.And(k0 >= 0, k0 < c.env['__i__'].e), z3.Select(ac.arr(ex_, 'terminated'), Val.vakey(S[k0])))
+    visited_terminated.__doc__ = 'every worker already visited has been asked to terminate'
+    L4 = Contract(
+        RC + '._create_worker', lid='L4', name='C18.L4 deleting a context terminates every worker it created (the clean-up loop of the helper)',
+        params={'self': ('const', None), 'cli': ('const', None), '_check_payload': ('const', None), '_clean': ('const', None)}, self_class=RC, setup=clean_setup,
+        ensures=[all_terminated, 'result'], raises={}, raises_only=[], returns='bool',
+        loops={0: Loop(invariant=[visited_terminated], modifies=['abs:CtxChild.terminated'], variant='__n__ - __i__')},
+        options={'recv_closed_check': False})
+
+    def create_setup(ex_, env):
+        helper_ctx(ex_, env)
+        env['cli'] = common.new_chan(ex_, 'Conn', 'cli')
+        env['_check_payload'] = VBool(False)
+        env['_clean'] = VBool(False)
+        ex_.ghost['patches_seen'] = []
+
+        def recv_hook(I, fi, a, k, n, s):
+            pv = a[1] if len(a) > 1 else k.get('state_overwrites')
+            ex_.ghost['patches_seen'].append(pv)
+            if ex_.choose(2, 'recv_msg:outcome') == 1:
+                raise common.PyRaise(VExc('ConnectionClosedError', []))
+            w = VAbs('CtxChild', ex_.fresh('received_worker', Val))
+            ex_.ghost['received'] = w
+            return w
+        ex_.ghost['__call_hooks__'] = {'pyworkers.remote.recv_msg': recv_hook}
+
+    def supplied(c):
+        ex_ = c.ex
+        seen = ex_.ghost['patches_seen']
+        if len(seen) != 1 or not isinstance(seen[0], VRef) or not isinstance(ex_.heap[seen[0].addr], HDict):
+            return z3.BoolVal(False)
+        p = ex_.heap[seen[0].addr].items
+        a = ex_.heap[c.env['self'].addr].attrs
+        need = {'_socket': c.env['cli'], '_target': a['_target'], '_args': a['_args'], '_kwargs': a['_kwargs']}
+        ok = all(k in p and p[k] is v for k, v in need.items()) and isinstance(p.get('_reset_sigterm_hnd'), VBool)
+        return z3.BoolVal(bool(ok))
+    supplied.__doc__ = ('the worker is received with exactly one set of patches: _socket = the client\'s connection, _target/_args/_kwargs = the context\'s own '
+                        '(the worker runs the context\'s work), _reset_sigterm_hnd set')
+
+    def recorded(c):
+        ex_ = c.ex
+        S0 = ex_.old['heap'][c.env['children'].addr].seq
+        S1 = ex_.heap[c.env['children'].addr].seq
+        w = ex_.ghost.get('received')
+        res = ex_.interp.truth(c.env['result'])
+        res = res if isinstance(res, z3.ExprRef) else z3.BoolVal(bool(res))
+        if w is None:
+            return z3.And(z3.Not(res), S1 == S0)
+        return z3.And(res, S1 == z3.Concat(S0, z3.Unit(lower(w, ex_))))
+    recorded.__doc__ = 'a received worker is appended to the context\'s children and True is returned; a lost connection returns False and records nothing'
+    L3 = Contract(
+        RC + '._create_worker', lid='L3', name='C18.L3 a worker sent to a context is received with the context\'s target and defaults and recorded for clean-up',
+        params={'self': ('const', None), 'cli': ('const', None), '_check_payload': ('const', None), '_clean': ('const', None)}, self_class=RC, setup=create_setup,
+        ensures=[supplied, recorded], raises={}, raises_only=[], returns='bool', options={'recv_closed_check': False})
+
+    RCW = 'pyworkers.remote_context.RemoteContextWorker'
+
+    def dw_setup(ex_, env):
+        I = ex_.interp
+        calls = []
+        ex_.ghost['ctx_calls'] = calls
+        tgt = I.sym('create_worker_bound')
+        env['self'] = ex_.alloc(HObj(repo.cls(RCW), {'_target': tgt, '_children': ex_.alloc(HList([]))}))
+
+        def opaque(ex2, f, a, k, node):
+            if f is tgt:
+                def tv(v):
+                    t = ex2.interp.truth(v)
+                    return t if isinstance(t, bool) else (True if z3.is_true(smt.simp(t)) else False if z3.is_false(smt.simp(t)) else None)
+                calls.append(sorted((kk, tv(vv)) for kk, vv in k.items()))
+                return VBool(True)
+            raise common.Undecided(f'opaque call {f!r}')
+        ex_.ghost['__opaque_call__'] = opaque
+
+        def super_do_work(I2, fi, a, k, n, s):
+            calls.append('serve')
+            if ex_.choose(2, 'serve:outcome') == 1:
+                raise common.PyRaise(VExc('AnyBaseException', []))
+            return VSym(ex_.fresh('served', Val))
+        ex_.ghost['__call_hooks__'] = {repo.lookup_method(repo.cls(RCW), 'do_work', after=repo.cls(RCW))[0].qualname: super_do_work}
+
+    def always_cleans(c):
+        calls = c.ex.ghost['ctx_calls']
+        ok = len(calls) == 3 and calls[0] == [('_check_payload', True)] and calls[1] == 'serve' and calls[2] == [('_clean', True)]
+        return z3.BoolVal(bool(ok))
+    always_cleans.__doc__ = 'the helper unpacks the payload, serves requests, and ALWAYS runs the clean-up when serving ends - normally or by any exception'
+    L4b = Contract(RCW + '.do_work', lid='L4b', name='C18.L4b the context helper always runs its clean-up when it stops serving',
+                   params={'self': ('const', None)}, self_class=RCW, setup=dw_setup, all_exits=[always_cleans],
+                   raises={'AnyBaseException': None}, raises_only=['AnyBaseException'])
+    return lemmas + [(L2a, None), (L2b, None), (L3, None), (L4, None), (L4b, None)]
 
 
-replay = _c11.replay
+def replay(ob, repo):
+    if 'remote_context' in ob['site']:
+        from pyvc.native import run_script
+        r = run_script('c18_native.py', {'lemma': ob['lemma'].split(' ')[0]}, repo, timeout=150)
+        return bool(r.get('violates')), r
+    return _c11.replay(ob, repo)
+
+
 replay_file = _c11.replay_file
